@@ -296,6 +296,12 @@ def run(ctx):
         else:
             sweep = [("Stage(minor,B)", "Stage(minor,A)"), ("Write(vcf,B)", "Write(decomposition,A)"), ("Stage(major,B)", "Stage(cn,A)"),
                      ("Accessor(Coverage.filtered,AB)", "Accessor(SolvedAllele.__str__,AB)"), ("Query(all,A)", "Query(minor,B)")]
+        # store sweeps: o1, o2, Store(clear|poison), o1, o2 (same process: only the debug store differs)
+        stsweep = ([("Genotype(aldy/s1,A)", "Stage(cn,B)"), ("Stage(cn,A)", "GenotypeMulti(aldy/s1,AB)"), ("Stage(major,A)", "Genotype(cn/s1,B)")]
+                   if sim else [("Stage(cn,A)", "Stage(minor,B)"), ("Stage(major,A)", "Write(vcf,B)"), ("Stage(minor,A)", "Stage(cn,B)")])
+        for j, (a, b) in enumerate(stsweep[:2] if quick else stsweep):
+            for what in ("poison", "clear"):
+                add(worlds[j % len(worlds)], [by[a], by[b], by[f"Store({what})"], by[a], by[b]], "store-sweep")
         seeds = [1, 2] if quick else [1, 2, 3, 4, 5, 6, 7]
         if quick:
             sweep = sweep[:2] if sim else sweep[:2]
